@@ -1,5 +1,13 @@
 (* glue between text lines and the extracted model's data types *)
 open Model
+module String = Stdlib.String
+module List = Stdlib.List
+module Char = Stdlib.Char
+module Array = Stdlib.Array
+module Buffer = Stdlib.Buffer
+module Printf = Stdlib.Printf
+type string = Stdlib.String.t
+let compare = Stdlib.compare
 
 let rec pos_of_int i = if i <= 1 then XH else if i land 1 = 1 then XI (pos_of_int (i lsr 1)) else XO (pos_of_int (i lsr 1))
 let n_of_int i = if i <= 0 then N0 else Npos (pos_of_int i)
